@@ -43,6 +43,14 @@ inductive Body where
   | addMembers (who : List Nat)         -- `add_members` (inline Add proposals; the joiners come in by their welcomes)
   deriving DecidableEq, Repr, Inhabited
 
+/-- a queued stand-alone proposal OTHER than a member's own leave (kept next to `props` in the OpenMLS proposal store;
+    used by `Model/Proposal.lean`, which follows `process_proposal` for every proposal type — the functions of this
+    file never touch it) -/
+inductive QP where
+  | rm (src target : Nat)      -- Remove(target) proposed by member `src` ≠ target
+  | add (src who : Nat)        -- Add(key package of `who`) proposed by member `src`
+  deriving DecidableEq, Repr, Inhabited
+
 inductive Kind where
   | app (mid msgTs tok : Nat)
   | commit (body : Body) (swept : List Nat)   -- `swept`: leavers whose pending proposals the committer's store held
@@ -60,6 +68,7 @@ structure Ev where
   kind : Kind
   tag : Nat := 0       -- the `h` tag: the nostr group id of the publisher's stored record when the wrapper was built
                        -- (`build_message_event`); 0 = the id chosen at creation.  Not authenticated: anyone can re-wrap
+  sweptX : List QP := []   -- a commit: the queued proposals other than leaves it references (Model/Proposal.lean only)
   deriving DecidableEq, Repr, Inhabited
 
 def baseEpoch : Nat := 1
@@ -104,6 +113,7 @@ structure GState where
   recNid : Nat                          -- the record's nostr_group_id: what incoming `h` tags are looked up by
   last : Option (Nat × Nat)             -- cached last message (mid, msgTs)
   active : Bool := true                 -- false once a commit removing the own leaf was merged (record state Inactive)
+  xq : List QP := []                    -- queued proposals other than leaves (Model/Proposal.lean only)
   deriving DecidableEq, Repr, Inhabited
 
 structure Snap where
@@ -195,7 +205,7 @@ def mergeCommit (maxPast : Nat) (g : GState) (e : Ev) : GState :=
   | .commit b swept =>
     let g1 := applyBody g b
     let g2 := { g1 with members := g1.members.filter (fun m => !(swept.contains m)) }
-    { g2 with path := g.path ++ [e.cipher], pending := none, props := [], past := ((g.path :: g.past).take maxPast) }
+    { g2 with path := g.path ++ [e.cipher], pending := none, props := [], xq := [], past := ((g.path :: g.past).take maxPast) }
   | _ => g
 
 /-! ### the snapshot manager as process_commit uses it -/
